@@ -11,6 +11,7 @@ import (
 	"encoding/base64"
 	"encoding/hex"
 	"encoding/json"
+	"encoding/xml"
 	"fmt"
 	"net/http/httptest"
 	"os"
@@ -488,6 +489,13 @@ func c10Flow(c *Ctx) {
 							continue
 						}
 						key = kd.Key
+						// the key the CPIX document itself gives for the announced key id (read by the harness, not by pkg/drm)
+						if own := ownCPIXKey(m.name, kid); own == nil {
+							c.Count("cpix-own-reader-no-key")
+						} else if !bytes.Equal(own, key) {
+							viol("cpix-key-of-kid", fmt.Sprintf("%s %s: the content key used for key id %s is not the one the CPIX document lists for it", m.name, rp.ID, kid), base+rp.InitURI+q, nil)
+							key = own
+						}
 						if hex.EncodeToString(kd.KeyID) != kid {
 							viol("cpix-kid", fmt.Sprintf("%s %s: init KID %s, CPIX key id %x", m.name, rp.ID, kid, kd.KeyID), base+rp.InitURI+q, nil)
 						}
@@ -611,4 +619,50 @@ func c10Compare(enc, clear []byte, di mp4.DecryptInfo, key []byte, trex *mp4.Tre
 		}
 	}
 	return ""
+}
+
+// ownCPIXKey reads the CPIX document of a DRM package with encoding/xml and returns the secret listed for the key id
+// (hex, no dashes); nil if it cannot be found.
+func ownCPIXKey(pkgName, kidHex string) []byte {
+	raw, err := os.ReadFile(filepath.Join(repoRoot(), "pkg/drm/testdata/drm_config_test.json"))
+	if err != nil {
+		return nil
+	}
+	var cfg struct {
+		Packages []struct {
+			Name     string `json:"name"`
+			CpixFile string `json:"cpixFile"`
+		} `json:"packages"`
+	}
+	if json.Unmarshal(raw, &cfg) != nil {
+		return nil
+	}
+	for _, p := range cfg.Packages {
+		if p.Name != pkgName {
+			continue
+		}
+		xb, err := os.ReadFile(filepath.Join(repoRoot(), "pkg/drm/testdata", p.CpixFile))
+		if err != nil {
+			return nil
+		}
+		var doc struct {
+			Keys []struct {
+				Kid   string `xml:"kid,attr"`
+				Plain string `xml:"Data>Secret>PlainValue"`
+			} `xml:"ContentKeyList>ContentKey"`
+		}
+		if xml.Unmarshal(xb, &doc) != nil {
+			return nil
+		}
+		for _, k := range doc.Keys {
+			if strings.ReplaceAll(strings.ToLower(k.Kid), "-", "") == kidHex {
+				b, err := base64.StdEncoding.DecodeString(strings.TrimSpace(k.Plain))
+				if err != nil {
+					return nil
+				}
+				return b
+			}
+		}
+	}
+	return nil
 }
